@@ -1184,3 +1184,146 @@ def trace_calls(body, names, rules_log):
     first = body.index("{")
     body = body[:first + 1] + "\n        let ghost mut r24_trace: Seq<int> = Seq::empty();" + body[first + 1:]
     return body
+
+
+# ---------------------------------------------------------------------------------------------------------------------
+# R26: a call of a NEW private helper (a function of the same file that did not exist when the contracts were written —
+# absent from inventory.json) with a simple body is expanded in place, so that the caller is verified with the helper's
+# real text ("extract a helper" is a behaviour-preserving refactoring; a helper with a bug in it is not).
+def _helper_items(src):
+    """name -> (params text list, has_self ('', '&', '&mut', 'val'), body text incl. braces, is_pub)"""
+    out = {}
+
+    def walk(lo, hi):
+        for it in _items_in(src.src, src.toks, lo, hi):
+            h = it.header.split()
+            if any("test" in a for a in it.attrs):
+                continue
+            if h[0] == "fn":
+                name = re.match(r"fn\s+(\w+)", it.header).group(1)
+                quals = []
+                k = it.start
+                while src.toks[k].text != "fn":
+                    quals.append(src.toks[k].text); k += 1
+                # parameter list: first (...) after the name
+                j = k
+                while src.toks[j].text != "(":
+                    j += 1
+                close = match_close(src.toks, j)
+                ptoks = [t for t in src.toks[j + 1:close] if t.kind not in ("ws", "comment")]
+                params, cur, depth = [], [], 0
+                for t in ptoks:
+                    if t.text in ("(", "[", "<", "{"): depth += 1
+                    elif t.text in (")", "]", ">", "}"): depth -= 1
+                    if t.text == "," and depth == 0:
+                        params.append(cur); cur = []
+                    else:
+                        cur.append(t.text)
+                if cur: params.append(cur)
+                selfk = ""
+                names = []
+                for p in params:
+                    s = "".join(p)
+                    if s == "&self": selfk = "&"
+                    elif s == "&mutself": selfk = "&mut"
+                    elif s in ("self", "mutself"): selfk = "val"
+                    else:
+                        names.append(p[0] if p[0] != "mut" else p[1])
+                out.setdefault(name, []).append((names, selfk, it.body_text, "pub" in quals, it))
+            elif h[0] in ("impl", "mod") and it.body_open is not None:
+                if h[0] == "mod" and len(h) > 1 and h[1] in ("tests", "test"):
+                    continue
+                walk(it.body_open + 1, it.body_close)
+    walk(0, len(src.toks))
+    return out
+
+
+def inline_new_helpers(body, src, known_names, rules_log):
+    """known_names: function names of this file recorded in inventory.json (None = no inventory: do nothing)"""
+    if known_names is None:
+        return body
+    helpers = {n: v[0] for n, v in _helper_items(src).items() if n not in known_names and len(v) == 1}
+    if not helpers:
+        return body
+    for _ in range(20):
+        toks = full_tokens(body)
+        sg = [i for i, t in enumerate(toks) if t.kind not in ("ws", "comment")]
+        hit = None
+        for q, i in enumerate(sg):
+            t = toks[i]
+            if t.kind == "ident" and t.text in helpers and q + 1 < len(sg) and toks[sg[q + 1]].text == "(":
+                names, selfk, hbody, is_pub, it = helpers[t.text]
+                inner = [x for x in tokenize(hbody) if x.kind not in ("ws", "comment")]
+                txts = [x.text for x in inner]
+                if is_pub or any(x in ("return", "?", "await", "loop", "while", "for", "Self") for x in txts):
+                    raise ExtractError(f"unsupported construct: call of the new function `{t.text}` (not in inventory.json; too complex to expand in place)")
+                close = match_close(toks, sg[q + 1])
+                args, cur, depth = [], [], 0
+                for x in toks[sg[q + 1] + 1:close]:
+                    if x.text in ("(", "[", "{"): depth += 1
+                    elif x.text in (")", "]", "}"): depth -= 1
+                    if x.text == "," and depth == 0 and x.kind == "punct":
+                        args.append("".join(cur)); cur = []
+                    else:
+                        cur.append(x.text)
+                if "".join(cur).strip(): args.append("".join(cur))
+                # receiver
+                start = i
+                recv = None
+                if selfk:
+                    if q < 2 or toks[sg[q - 1]].text != ".":
+                        raise ExtractError(f"unsupported construct: new helper `{t.text}` is not called as a method")
+                    k = q - 2
+                    st = None
+                    while k >= 0:
+                        x = toks[sg[k]]
+                        if x.kind == "punct" and x.text in (")", "]"):
+                            depth = 0; j = sg[k]
+                            while j >= 0:
+                                if toks[j].kind == "punct" and toks[j].text in CLOSE: depth += 1
+                                elif toks[j].kind == "punct" and toks[j].text in OPEN:
+                                    depth -= 1
+                                    if depth == 0: break
+                                j -= 1
+                            k = sg.index(j); st = k
+                            if k - 1 >= 0 and toks[sg[k - 1]].kind == "ident" and toks[sg[k - 1]].text not in KEYWORDS:
+                                k -= 1; continue
+                            break
+                        if x.kind == "ident" and x.text not in KEYWORDS:
+                            st = k
+                            if k - 1 >= 0 and toks[sg[k - 1]].text in (".", "::"):
+                                k -= 2; continue
+                            break
+                        break
+                    if st is None:
+                        raise ExtractError(f"unsupported construct: cannot delimit the receiver of the new helper `{t.text}`")
+                    start = sg[st]
+                    recv = "".join(x.text for x in toks[start:sg[q - 1]])
+                else:
+                    # `Self::name(` / `path::name(` / `name(`
+                    k = q
+                    while k - 2 >= 0 and toks[sg[k - 1]].text == "::" and toks[sg[k - 2]].kind == "ident":
+                        k -= 2
+                    start = sg[k]
+                if len(args) != len(names):
+                    raise ExtractError(f"unsupported construct: new helper `{t.text}`: {len(args)} argument(s) for {len(names)} parameter(s)")
+                simple_recv = recv is not None and re.fullmatch(r"[\w\s.:]+", recv) is not None
+                self_txt = ("(" + recv.strip() + ")") if simple_recv else "r26_self"
+                hb = "".join(((self_txt if (x.kind == "ident" and x.text == "self") else x.text)) for x in tokenize(hbody))
+                pre = ""
+                if simple_recv: pass     # a plain place expression is substituted for `self` (no re-borrow: its own mutability applies)
+                elif selfk == "&": pre += f"let r26_self = &{recv}; "
+                elif selfk == "&mut": pre += f"let r26_self = &mut {recv}; "
+                elif selfk == "val": pre += f"let r26_self = {recv}; "
+                for n_, a_ in enumerate(args):
+                    pre += f"let r26_a{n_} = {a_}; "
+                for n_, nm in enumerate(names):
+                    pre += f"let {nm} = r26_a{n_}; "
+                hit = (start, close, "({ " + pre + hb + " })", t.text)
+                break
+        if hit is None:
+            return body
+        start, close, rep, nm = hit
+        body = "".join(x.text for x in toks[:start]) + rep + "".join(x.text for x in toks[close + 1:])
+        rules_log.append(("R26", f"call of the new private helper `{nm}` (not in inventory.json) expanded in place with its real body"))
+    raise ExtractError("R26 refused: too many helper expansions")
